@@ -2,7 +2,7 @@
 From Coq Require Import ZArith List Bool.
 From HV Require Import Prelude.Py Prelude.State Prelude.Utf8 Spec.IntRep Spec.HuffmanCode Spec.DynTable Spec.SDecoder.
 From HV Require Import Model.Data Model.Decoder Model.Rel.
-From HV Require Import Proofs.Table Proofs.DecoderRefine Proofs.SpecDecoder Proofs.DecoderMeaning.
+From HV Require Import Proofs.Table Proofs.DecoderRefine Proofs.SpecDecoder Proofs.DecoderMeaning Proofs.SpecDecoderConv.
 Import ListNotations.
 Open Scope Z_scope.
 
@@ -15,6 +15,22 @@ Theorem C05_error_class : forall d data raw e d', dec_ok d ->
   Decoder_decode d data raw = (Err e, d') ->
   exists c, decode KLIM (ctx_of d) data (negb raw) = SErr c /\ e = exn_of c.
 Proof. exact error_class. Qed.
+
+(** ... and the RFC decoder accepts EXACTLY the well-formed blocks in the declarative sense: a
+    block is accepted iff it is the concatenation of wire forms of a sequence of representations
+    that is well-formed for the context (every index addressable, size updates only at the
+    start and within the permitted maximum, list within its limit, table size within the
+    permitted maximum at the end), and then the result is that sequence's meaning; in text mode
+    additionally every name and value must be UTF-8.  With [C05_accept_iff] this is "the Decoder
+    accepts a block if and only if it is well-formed for its current context and limits". *)
+Theorem C05_accepts_iff_wellformed : forall K c w fs c', 0 <= K ->
+  (decode K c w false = SOk (fs, c') <-> exists rs, wire_block K rs w /\ sem c rs [] = Some (fs, c')).
+Proof. exact decode_accepts_iff_wellformed. Qed.
+Theorem C05_text_accepts_iff : forall K c w fs c', 0 <= K ->
+  (decode K c w true = SOk (fs, c') <->
+   (exists rs, wire_block K rs w /\ sem c rs [] = Some (fs, c')) /\
+   forallb (fun f => utf8_valid (snd (fst f)) && utf8_valid (snd f)) fs = true).
+Proof. exact decode_text_accepts_iff. Qed.
 
 (** the only latitude: a larger integer-length limit changes nothing except turning some
     "malformed" verdicts (over-long integers) into something else *)
@@ -69,6 +85,8 @@ Proof. exact not_utf8. Qed.
 
 Print Assumptions C05_accept_iff.
 Print Assumptions C05_error_class.
+Print Assumptions C05_accepts_iff_wellformed.
+Print Assumptions C05_text_accepts_iff.
 Print Assumptions C05_limit_latitude.
 Print Assumptions C05_bad_index.
 Print Assumptions C05_truncated_first_integer.
